@@ -215,7 +215,7 @@ theorem recordOfRow_fields (r : Record)
   have c8 : column Csv.header (recordFields r) (h 8) = some (boolField r.withAbundance) := rfl
   have c9 : column Csv.header (recordFields r) (h 9) = some r.name := rfl
   have c10 : column Csv.header (recordFields r) (h 10) = some r.filename := rfl
-  simp only [recordOfRow, c0, c1, c2, c3, c4, c5, c6, c7, c8, c9, c10, Option.bind_some,
+  simp only [recordOfRow, c0, c1, c2, c3, c4, c5, c6, c7, c8, c9, c10,
     parseNat_natBytes _ _ h1, parseNat_natBytes _ _ h2, parseNat_natBytes _ _ h3, parseNat_natBytes _ _ h4,
     toBool_boolField, Option.pure_def, bind, Option.bind]
 
